@@ -6,6 +6,7 @@ import random
 import numpy as np
 
 import common
+import gen
 import solver
 import solverchecks as sc
 from minplascalc import units as u
@@ -108,7 +109,10 @@ def check(run):
     okd, dlog = common.build_driver("mix")
     runs, found, hist = [], None, {}
     worst_seen = 0.0
-    for sps, x0, T, P, kind in sc.cases(rng, n):
+    # dense, hot Si-C-O: the Stewart-Pyatt lowering reaches half of an ionisation energy there
+    dense = [([gen.shipped(nm) for nm in gen.SICO], gen.sico_x0(f), Tp, Pp, "dense")
+             for f, Tp, Pp in ((0.5, 20000.0, 8e6), (0.2, 26000.0, 1e7), (0.8, 16000.0, 6e6))]
+    for sps, x0, T, P, kind in dense + sc.cases(rng, n):
         m, nd, warned = solver.traced(sps, x0, T, P)
         runs.append((m, nd, warned))
         outcome = "warned" if warned is True else (warned if warned else "ok")
